@@ -295,3 +295,25 @@ def evaluate(expr, get):
             return None
         return min(1.0, get(expr[1]) / d)
     raise ValueError(k)
+
+
+def rename(expr, f):
+    """apply label -> real line name mapping f to every operand of expr"""
+    if expr is None:
+        return None
+    k = expr[0]
+    if k == 'add':
+        return ('add', [f(l) for l in expr[1]])
+    if k == 'sub':
+        return ('sub', f(expr[1]), f(expr[2]), expr[3])
+    if k in ('condsub', 'min', 'max', 'div1'):
+        return (k, f(expr[1]), f(expr[2]))
+    if k == 'mul':
+        return ('mul', f(expr[1]), expr[2] if expr[2][0] == 'const' else ('line', f(expr[2][1])))
+    if k == 'copy':
+        return ('copy', expr[1], f(expr[2]) if expr[1] is None else expr[2])
+    if k in ('floor0', 'cap0'):
+        return (k, rename(expr[1], f))
+    if k == 'roundup':
+        return ('roundup', rename(expr[1], f), expr[2])
+    return expr
